@@ -1074,6 +1074,7 @@ func (w *world) expand(op opSpec) []opSpec {
 // terminating pods), "ready" (only start pods); op.Seconds > 0 restricts to pods whose index modulo
 // op.Seconds is 0 (a partial settle).
 const crashLoopAnnotation = "verif.example/crashloop"
+const hungAnnotation = "verif.example/hung"
 
 func (w *world) kubelet(op opSpec) error {
 	ctx := context.TODO()
@@ -1089,7 +1090,48 @@ func (w *world) kubelet(op opSpec) error {
 		if op.Ns != "" && p.Namespace != op.Ns {
 			continue
 		}
+		if op.Cmd == "hang" {
+			// the node of this pod stops answering: the pod is deleted gracefully and never goes away
+			if p.DeletionTimestamp != nil || p.Spec.NodeName == "" {
+				continue
+			}
+			if p.Annotations == nil {
+				p.Annotations = map[string]string{}
+			}
+			p.Annotations[hungAnnotation] = "true"
+			if err := w.raw.Update(ctx, p); err != nil {
+				return err
+			}
+			if err := w.raw.Delete(ctx, p, client.GracePeriodSeconds(30)); err != nil {
+				return err
+			}
+			// what the API server and the node life-cycle controller record: the grace period, and Ready=False
+			cur := &corev1.Pod{}
+			if err := w.raw.Get(ctx, client.ObjectKeyFromObject(p), cur); err != nil {
+				return err
+			}
+			grace := int64(30)
+			cur.DeletionGracePeriodSeconds = &grace
+			st := cur.Status.DeepCopy()
+			if err := w.raw.Update(ctx, cur); err != nil {
+				return err
+			}
+			for i := range st.Conditions {
+				if st.Conditions[i].Type == corev1.PodReady {
+					st.Conditions[i].Status = corev1.ConditionFalse
+				}
+			}
+			cur.Status = *st
+			if err := w.raw.Status().Update(ctx, cur); err != nil {
+				return err
+			}
+
+			continue
+		}
 		if p.DeletionTimestamp != nil {
+			if p.Annotations[hungAnnotation] == "true" {
+				continue
+			}
 			if op.Cmd == "all" || op.Cmd == "finalize" {
 				p.Finalizers = nil
 				if err := w.raw.Update(ctx, p); err != nil {
